@@ -184,6 +184,73 @@ pub fn check(e: &Expr, rec: &mut Rec) -> CheckResult {
     Ok(())
 }
 
+/// Long patterns: the reference automaton is too large to explore over all short strings, so
+/// the real automaton is driven along strings derived from the pattern itself (the pattern,
+/// its prefixes, one-byte edits, padded variants) and compared with the denotation and with
+/// the reference hints at every prefix.
+fn check_long(e: &Expr, rec: &mut Rec) -> CheckResult {
+    let real = e.build();
+    let mut pats = vec![];
+    e.pattern_bytes(&mut pats);
+    let p: Vec<u8> = pats[..pats.len().min(300)].to_vec();
+    let mut inputs: Vec<Vec<u8>> = vec![p.clone(), vec![], p[..p.len() / 2].to_vec()];
+    for cut in [1usize, 254, 255, 256, 257, p.len().saturating_sub(1)] {
+        let c = cut.min(p.len());
+        let mut x = p.clone();
+        if c < x.len() {
+            x[c] ^= 3; // substitution
+        }
+        inputs.push(x);
+        let mut y = p.clone();
+        y.insert(c, b'c'); // insertion
+        inputs.push(y);
+        let mut z = p.clone();
+        if c < z.len() {
+            z.remove(c); // deletion
+        }
+        inputs.push(z);
+    }
+    let mut padded = p.clone();
+    padded.extend_from_slice(b"abab");
+    inputs.push(padded);
+    let interleaved: Vec<u8> = p.iter().flat_map(|&b| [b, b'c']).collect();
+    inputs.push(interleaved);
+    for w in inputs {
+        let mut st = real.start();
+        let mut rs = e.ref_start();
+        for step in 0..=w.len() {
+            rec.eval();
+            let m = real.is_match(&st);
+            let want = e.ref_accepts(&rs);
+            vensure!(m == want, "language", "{}…: after {} input bytes is_match={} but the specification says {}", &e.show()[..60.min(e.show().len())], step, m, want);
+            if step == w.len() {
+                vensure!(want == e.denotes(&w), "language", "reference state machine and denotation disagree (harness)");
+            }
+            if !real.can_match(&st) {
+                // sound only if no continuation matches: try the natural continuations
+                for cont in [&p[..], &p[step.min(p.len())..], b"", b"a", b"b"] {
+                    let mut full = w[..step].to_vec();
+                    full.extend_from_slice(cont);
+                    vensure!(!e.denotes(&full), "can-match-unsound", "long pattern: can_match=false after {} bytes but a continuation matches", step);
+                }
+            }
+            if real.will_always_match(&st) {
+                for cont in [&b"c"[..], b"", b"zzzz", &p[..5.min(p.len())]] {
+                    let mut full = w[..step].to_vec();
+                    full.extend_from_slice(cont);
+                    vensure!(e.denotes(&full), "will-always-match-unsound", "long pattern: will_always_match=true after {} bytes but a continuation does not match", step);
+                }
+            }
+            if step < w.len() {
+                st = real.accept(&st, w[step]);
+                rs = e.ref_step(&rs, w[step]);
+            }
+        }
+    }
+    rec.nontrivial(H::new().b(e.show().as_bytes()).get());
+    Ok(())
+}
+
 fn leaves() -> Vec<Expr> {
     let mut out = vec![
         Expr::Str(String::new()),
@@ -288,7 +355,27 @@ pub fn run(e: &Engine) {
         crate::engine::guarded(|| check(&ex, rec)).map_err(|f| (ex.to_json(), f))
     });
     e.run_prop("random-depth-3", e.tier.pick(300_000, 5_000_000), || aut::expr_strategy(3, 3), |c| c.to_json(), check);
-    for cls in ["depth_0", "depth_1", "depth_2", "depth_3", "can_match_false_observed", "will_always_match_true_observed"] {
+    e.run_prop("random-depth-4", e.tier.pick(40_000, 1_000_000), || aut::expr_strategy(4, 3), |c| c.to_json(), check);
+    // long patterns (beyond 255 bytes) with repeated bytes, directly and under one operator
+    let longs: Vec<Expr> = {
+        let p300: String = (0..300).map(|i| if i % 7 == 3 { 'b' } else { 'a' }).collect();
+        let p256: String = std::iter::repeat('a').take(256).collect();
+        let p257: String = (0..257).map(|i| if i % 2 == 0 { 'a' } else { 'b' }).collect();
+        let mut v = vec![];
+        for p in [p300, p256, p257] {
+            v.push(Expr::Str(p.clone()));
+            v.push(Expr::Subseq(p.clone()));
+            v.push(Expr::StartsWith(Box::new(Expr::Str(p.clone()))));
+            v.push(Expr::Compl(Box::new(Expr::Subseq(p.clone()))));
+            v.push(Expr::Inter(Box::new(Expr::Subseq(p.clone())), Box::new(Expr::Str(p))));
+        }
+        v
+    };
+    e.run_list("long-patterns", &longs, |c| c.to_json(), |c, rec| {
+        rec.class("pattern_longer_than_255_bytes");
+        check_long(c, rec)
+    });
+    for cls in ["depth_0", "depth_1", "depth_2", "depth_3", "depth_4", "pattern_longer_than_255_bytes", "can_match_false_observed", "will_always_match_true_observed"] {
         e.require_class(cls, 1);
     }
 }
